@@ -87,24 +87,26 @@ package logx
 //@   let globbed = ret(filepath.Glob, 0)
 // the current log file, which the pattern matches when the delimiter is empty, is filtered out before anything is
 // ranked: it is not a backup and is never reported for deletion
-//@   loop 1 invariant -1 <= rangeindex && rangeindex < len(globbed) && len(backups) <= rangeindex + 1 && forall(i, 0, len(backups), backups[i] != r.filename)
-//@   loop 2 invariant -1 <= rangeindex && len(files) <= len(globbed) && forall(i, 0, len(files), files[i] != r.filename) && !has(outdated, r.filename)
+//@   loop 1 invariant -1 <= rangeindex && rangeindex < len(globbed) && len(backups) <= rangeindex + 1 && forall(i, 0, len(backups), pathclean(backups[i]) != pathclean(r.filename))
+//@   loop 2 invariant -1 <= rangeindex && len(files) <= len(globbed) && forall(i, 0, len(files), pathclean(files[i]) != pathclean(r.filename)) && forallk(f0, string, has(outdated, f0) ==> pathclean(f0) != pathclean(r.filename))
 //@   loop 2 iteration-ensures [oldest-names-beyond-the-backup-limit] has(outdated, at_head(files[rangeindex + 1])) && rangeindex + 1 <= len(files) - r.maxBackups
-//@   loop 3 invariant -1 <= rangeindex && forall(i, 0, len(files), files[i] != r.filename) && !has(outdated, r.filename)
-//@   loop 4 invariant !has(outdated, r.filename) && forall(i, 0, len(result), result[i] != r.filename)
+//@   loop 3 invariant -1 <= rangeindex && forall(i, 0, len(files), pathclean(files[i]) != pathclean(r.filename)) && forallk(f0, string, has(outdated, f0) ==> pathclean(f0) != pathclean(r.filename))
+//@   loop 4 invariant forallk(f0, string, has(outdated, f0) ==> pathclean(f0) != pathclean(r.filename)) && forall(i, 0, len(result), pathclean(result[i]) != pathclean(r.filename))
 //@   ensures [ranked-by-name] ret(filepath.Glob, 1) == nil ==> calls(sort.Strings) == 1 && len(arg(sort.Strings, 0)) <= len(globbed)
 //@   ensures [glob-error-reports-nothing] ret(filepath.Glob, 1) != nil ==> result == nil
 //@   replay logx_outdated
-//@   ensures [never-the-current-file] forall(i, 0, len(result), result[i] != r.filename)
+//@   ensures [never-the-current-file] forall(i, 0, len(result), pathclean(result[i]) != pathclean(r.filename))
 //@ func (*DailyRotateRule).OutdatedFiles
 //@   prop C19
 //@   opaque Errorf
 //@   requires r != nil
 //@   ensures [disabled] r.days <= 0 ==> result == nil && calls(Glob) == 0
 //@   replay logx_outdated
-//@   loop 1 invariant forall(i, 0, len(outdates), outdates[i] != r.filename)
-//@   ensures [never-the-current-file] forall(i, 0, len(result), result[i] != r.filename)
+//@   loop 1 invariant forall(i, 0, len(outdates), pathclean(outdates[i]) != pathclean(r.filename))
+//@   ensures [never-the-current-file] forall(i, 0, len(result), pathclean(result[i]) != pathclean(r.filename))
 //@   ensures [boundary-from-now] calls(Format) == 1 ==> calls(time.Now) == 1 && arg(Format, 0) == ret(Add) && arg(Add, 0) == ret(time.Now) && arg(Add, 1) == 0 - 3600000000000 * (24 * r.days) && arg(Format, 1) == dateFormat
+// the boundary name is spelt exactly like a backup name of this rule: file name, the rule's OWN delimiter, date
+//@   ensures [boundary-named-like-a-backup] calls(fmt.Fprintf) == 1 ==> len(arg(fmt.Fprintf, 2)) == 3 && unbox(arg(fmt.Fprintf, 2)[0], string) == r.filename && unbox(arg(fmt.Fprintf, 2)[1], string) == r.delimiter && unbox(arg(fmt.Fprintf, 2)[2], string) == ret(Format) && arg(fmt.Fprintf, 1) == "%s%s%s"
 
 // init (opening the log file): the size counter, which decides size-based rotation, starts from the size the
 // existing file already has (as reported by the Stat that found it); a newly created file leaves it untouched.
@@ -256,3 +258,9 @@ package logx
 //@   prop C19
 //@   loop 1 invariant -1 <= rangeindex && rangeindex <= len(opts)
 //@   loop 1 iteration-ensures [each-option-applied-to-the-global-options] calls(opt) == 1 && opt == at_head(opts[rangeindex + 1])
+// parseFilename: the extension is the file name's last '.'-suffix and the prefix everything before it - of the WHOLE
+// file name (sibling logs such as svc.access.log / svc.error.log keep distinct backup names).
+//@ func (*SizeLimitRotateRule).parseFilename
+//@   prop C19
+//@   requires r != nil
+//@   ensures [name-is-prefix-plus-extension] ext == ret(filepath.Ext) && arg(filepath.Ext, 0) == r.filename && arg(filepath.Base, 0) == r.filename && prefix == strsub(ret(filepath.Base), 0, len(ret(filepath.Base)) - len(ext))
